@@ -26,12 +26,15 @@ class Result:
     second: Optional[tuple[str, str, float]] = None  # (solver, verdict, seconds) of the cross-check
 
 
-def run_z3(smt2: str, want_model: list[str], timeout_ms: int = Z3_TIMEOUT_MS) -> tuple[str, float, dict[str, str], str]:
+def run_z3(smt2: str, want_model: list[str], timeout_ms: int = Z3_TIMEOUT_MS, seed: int = 0) -> tuple[str, float, dict[str, str], str]:
     import z3
     t0 = time.time()
     s = z3.Solver()
     s.set(auto_config=False, mbqi=False)
     s.set("timeout", timeout_ms)
+    if seed:
+        s.set("random_seed", seed)
+        s.set("phase_selection", 5)
     s.from_string(smt2)
     orig = list(s.assertions())  # check() may rewrite the assertion set in place
     r = s.check()
@@ -133,6 +136,23 @@ def solve_one(args: tuple[str, str, list[str], bool, str]) -> Result:
     res = Result(name, v, "z3", dt, model, reason)
     if kind == "cover":
         return res  # a cover only has to be *not refutable* quickly
+    if v == "unknown":
+        # E-matching proofs can be lost to an unlucky search order: before calling an obligation undischarged, retry with other
+        # seeds (a proof found under any seed is a proof; `unknown` is never turned into a verdict)
+        for sd in (7, 42):
+            try:
+                v2, dt2, model2, reason2 = run_z3(smt2, want, Z3_TIMEOUT_MS, seed=sd)
+            except Exception:  # noqa: BLE001
+                continue
+            dt += dt2
+            if v2 == "unsat":
+                res = Result(name, "unsat", f"z3", dt, {}, f"seed {sd}")
+                v = "unsat"
+                break
+            if v2 == "sat":
+                res = Result(name, "sat", "z3", dt, model2, reason2)
+                v = "sat"
+                break
     if v != "unsat" or both:
         cv, cdt, creason = run_cvc5(smt2)
         if v == "unsat":
